@@ -217,7 +217,13 @@ func (s *Session) WriteMessage(req *pool.Message) error {
 	if err != nil {
 		return fmt.Errorf("cannot marshal: %w", err)
 	}
-	err = s.connection.WriteWithContext(req.Context(), data)
+	// the write ends with the context of the message or with the connection: Close of a connection whose socket belongs
+	// to the application leaves the socket open, and nothing else would end a write the peer does not read
+	ctx, cancel := context.WithCancel(req.Context())
+	defer cancel()
+	stop := context.AfterFunc(s.Context(), cancel)
+	defer stop()
+	err = s.connection.WriteWithContext(ctx, data)
 	if err != nil {
 		return fmt.Errorf("cannot write to connection: %w", err)
 	}
